@@ -128,9 +128,9 @@ type Config struct {
 	KeepEventsForHeights int
 	// MaxTransactionsLength: payload limit of a block (default 15 KiB).
 	MaxTransactionsLength uint32
-	ChainID              []byte
-	FS                   vfs.FS // default: fresh vfs.NewMem()
-	PebbleOpts           *pebble.Options
+	ChainID               []byte
+	FS                    vfs.FS // default: fresh vfs.NewMem()
+	PebbleOpts            *pebble.Options
 	// P2PAddresses: when non-nil the connection is started on these listen addresses.
 	P2PAddresses []string
 	P2PSeed      []byte
@@ -289,8 +289,8 @@ func (n *Node) open() error {
 	n.Log = NewLogger()
 	n.ctx, n.cancel = context.WithCancel(context.Background())
 	n.Conn = p2p.NewConnection(n.Log, &p2p.Config{
-		ChainID:            n.Cfg.ChainID,
-		Addresses:          n.Cfg.P2PAddresses,
+		ChainID:   n.Cfg.ChainID,
+		Addresses: n.Cfg.P2PAddresses,
 	})
 	n.Chain = blockchain.NewChain(&blockchain.ChainConfig{
 		ChainID:               n.Cfg.ChainID,
